@@ -244,6 +244,21 @@ def strings_for(case):
         return "filename", out
     if kind == "mutant":
         return case["of"], [case["string"]]
+    if kind == "neighbourhood":
+        # ALL strings at edit distance one (substitution, deletion, insertion over the alphabet of
+        # the identifiers plus a lower-case letter, a blank and digits of other scripts)
+        base = case["string"]
+        alphabet = ALPHABET + "a \uff13\u0663"
+        out = set()
+        for i in range(len(base) + 1):
+            for ch in alphabet:
+                out.add(base[:i] + ch + base[i:])
+                if i < len(base):
+                    out.add(base[:i] + ch + base[i + 1:])
+            if i < len(base):
+                out.add(base[:i] + base[i + 1:])
+        out.discard(base)
+        return case["of"], sorted(out)
     raise ValueError(kind)
 
 
@@ -332,6 +347,20 @@ def enum_cases(tier):
     for shape in range(len(filename_shapes())):
         for start in range(0, 3600, 1200):
             yield {"kind": "filename", "shape": shape, "start": start + (shape % stride), "count": 1200 - (shape % stride), "stride": stride}
+    # complete one-edit neighbourhoods of a spread of valid identifiers
+    rng = random.Random(15)
+    step = 90 if tier == "quick" else 9
+    for pid in PRODUCT_IDS[::step]:
+        yield {"kind": "neighbourhood", "of": "product_id", "string": pid}
+    for scan in SCANS[:: 5 if tier == "quick" else 1]:
+        yield {"kind": "neighbourhood", "of": "scan", "string": scan}
+    for _ in range(6 if tier == "quick" else 60):
+        d = dt.date(2014, 1, 1) + dt.timedelta(days=rng.randrange(13149))
+        scene = f"ALOS2{rng.randrange(100000):05d}{rng.randrange(10000):04d}-{d:%y%m%d}"
+        yield {"kind": "neighbourhood", "of": "scene_id", "string": scene}
+        ft, pol, scan = rng.choice(filename_shapes())
+        yield {"kind": "neighbourhood", "of": "filename",
+               "string": ft + (f"-{pol}" if pol else "") + f"-{scene}-{rng.choice(PRODUCT_IDS)}" + (f"-{scan}" if scan else "")}
     n_open = 40 if tier == "quick" else 900
     rng = random.Random(5)
     for i in range(n_open):
@@ -359,7 +388,8 @@ def mutant_cases(draw):
         ft, pol, scan = rng.choice(filename_shapes())
         d = dt.date(2014, 1, 1) + dt.timedelta(days=rng.randrange(13149))
         s = ft + (f"-{pol}" if pol else "") + f"-ALOS2{rng.randrange(100000):05d}{rng.randrange(10000):04d}-{d:%y%m%d}-{rng.choice(PRODUCT_IDS)}" + (f"-{scan}" if scan else "")
-    op = draw(st.sampled_from(["substitute", "delete", "insert", "truncate", "append", "prepend", "lower", "swap", "none"]))
+    op = draw(st.sampled_from(["substitute", "delete", "insert", "truncate", "append", "prepend", "lower", "swap", "none",
+                               "other-script-digit", "fullwidth"]))
     pos = draw(st.integers(0, max(0, len(s) - 1)))
     ch = draw(st.sampled_from(ALPHABET + "a z\n"))
     if op == "substitute":
@@ -376,6 +406,17 @@ def mutant_cases(draw):
         s = draw(st.text(ALPHABET + " ", min_size=1, max_size=3)) + s
     elif op == "lower":
         s = s[:pos] + s[pos:].lower()
+    elif op == "other-script-digit":
+        # the same digit value written in another script (fullwidth, Arabic-Indic, Devanagari):
+        # str.isdigit(), int() and regex \\d accept these, the documented language does not
+        digits = [i for i, c in enumerate(s) if c in string.digits]
+        if digits:
+            i = digits[pos % len(digits)]
+            base = draw(st.sampled_from([0xFF10, 0x0660, 0x0966]))
+            s = s[:i] + chr(base + int(s[i])) + s[i + 1:]
+    elif op == "fullwidth":
+        if s and 0x21 <= ord(s[pos]) <= 0x7E:
+            s = s[:pos] + chr(ord(s[pos]) + 0xFEE0) + s[pos + 1:]
     elif op == "swap" and pos + 1 < len(s):
         s = s[:pos] + s[pos + 1] + s[pos] + s[pos + 2:]
     return {"kind": "mutant", "of": of, "string": s, "op": op}
